@@ -223,6 +223,16 @@ def run_check(prop, tier, seed):
     if names and (bad_axioms or missing or audit_err):
         proof_ok = False
         no_input_reasons.append("axiom audit: bad=%s missing=%s %s" % (bad_axioms, missing, audit_err[-500:]))
+    recheck = None
+    if tier == "thorough" and ok:
+        # independent re-check of the compiled proof modules of this property with leanchecker
+        mods = sorted({".".join(n.split(".")[1:-1]) for n in names if n.startswith("Entrait.C")})
+        mods = ["EntraitProofs." + m for m in mods if m]
+        rc_lc, out_lc = sh(["lake", "env", "leanchecker"] + mods, cwd=LEAN) if mods else (0, "")
+        recheck = {"modules": mods, "exit": rc_lc}
+        if rc_lc != 0:
+            proof_ok = False
+            no_input_reasons.append("leanchecker rejects %s: %s" % (mods, out_lc[-400:]))
     forb = grep_forbidden()
     if forb:
         proof_ok = False
@@ -374,6 +384,8 @@ def run_check(prop, tier, seed):
     }
     coverage.update(extra.get("coverage", {}))
     coverage["compile_and_run_probes"] = probe_cov
+    if recheck is not None:
+        coverage["leanchecker"] = recheck
     level = "proof"
     if not names:
         # no theorem registered for this property (yet): what ran is the differential
